@@ -1,7 +1,8 @@
 """C08 - streaming parse equals in-memory parse under any read schedule or reader fault.
 
 Model: Stream.tla (implementation-shaped buffer machine + reader environment), exhaustively checked by
-TLC for StreamEqualsMemory, Tiling, OffsetInv, NoReadAfterLatch, LatchStable, Progress.
+TLC for StreamEqualsMemory, Tiling, OffsetInv, NoReadAfterLatch, LatchStable, Progress, the size-limit laws, and
+Terminates under weak fairness of the reader (FairSpec).
 Direction A: the terminal states' schedules (and TLC-simulated longer ones) are replayed through a
 scripted io.Reader into the real BlockParser.
 Direction B: every execution (TLC schedules, all compositions of short inputs, seeded schedules on the
@@ -30,6 +31,20 @@ CONSTANTS
        "CONSTRAINT Emit\n" if emit else "", alpha or ALPHA, maxlen, chunk, maxbuf)
 
 
+def live_cfg(maxlen, chunk, maxbuf=1000, alpha=None):
+    """Liveness: under a reader that answers every Read (weak fairness on Read) the machine terminates. No VIEW, no state constraint."""
+    return """SPECIFICATION FairSpec
+PROPERTY Terminates
+CHECK_DEADLOCK FALSE
+CONSTANTS
+  Alphabet = %s
+  MaxLen = %d
+  Chunk = %d
+  MaxEmpty = 1
+  MaxBuf = %d
+""" % (alpha or ALPHA, maxlen, chunk, maxbuf)
+
+
 def run(ctx):
     ctx.build_harness()
     quick = ctx.tier == "quick"
@@ -43,8 +58,11 @@ def run(ctx):
     nlim = len(jobs)
     for mb, ch in ([(5, 2), (7, 2), (6, 1)] if quick else [(4, 2), (5, 2), (6, 2), (7, 2), (8, 3), (6, 1), (9, 2)]):
         jobs.append(dict(module="Stream", cfg_text=cfg(5 if quick else 6, ch, maxbuf=mb, alpha=LIM), name="Stream_lim_m%d_c%d" % (mb, ch), workers=4, timeout=3000))
+    nlive = len(jobs)
+    jobs.append(dict(module="Stream", cfg_text=live_cfg(3 if quick else 4, 2), name="Stream_live", workers=4, timeout=3000))
+    jobs.append(dict(module="Stream", cfg_text=live_cfg(4 if quick else 5, 2, maxbuf=5, alpha=LIM), name="Stream_live_lim", workers=4, timeout=3000))
     rs = ctx.tlc_many(jobs, parallel=4)
-    outs = [r["out"] for r in rs[:2]] + [r["out"] for r in rs[nlim:]]
+    outs = [r["out"] for r in rs[:2]] + [r["out"] for r in rs[nlim:nlive]]
     # TLC-simulated random schedules on longer inputs (history not hidden: the schedule is the behaviour)
     r = ctx.tlc("Stream", cfg(10, 3, view=False, props=False).replace("INIT Init", "INIT InitSim"), name="Stream_sim", simulate="num=%d" % (300 if quick else 4000),
                 depth=30, workers=1, timeout=900)
